@@ -147,7 +147,21 @@ def r_index(repo, tier):
             s_ = loop.target.id
             for c in ast.walk(loop):
                 if isinstance(c, ast.Call) and isinstance(c.func, ast.Attribute) and c.func.attr == "append" and isinstance(c.func.value, ast.Subscript) and c.args and norm(c.args[0]) == s_:
-                    filed.append((c, c.func.value.slice, s_))
+                    k_ = c.func.value.slice
+                    if isinstance(k_, ast.Name):
+                        # the key was given a name first: read its definition inside the loop body
+                        for a_ in ast.walk(loop):
+                            if isinstance(a_, ast.Assign) and len(a_.targets) == 1 and isinstance(a_.targets[0], ast.Name) and a_.targets[0].id == k_.id and a_.lineno <= c.lineno:
+                                k_ = a_.value
+                    filed.append((c, k_, s_))
+    if not maskvars:
+        # SPLIT was not recognised: take the mask from the filing key itself (`<fix> & M`), so that writer / label / reader
+        # agreement can still be decided
+        for c, k, s_ in filed:
+            if isinstance(k, ast.BinOp) and isinstance(k.op, ast.BitAnd):
+                for x in (k.left, k.right):
+                    if isinstance(x, ast.Name):
+                        maskvars.add(x.id)
     out.inst("setup::KEY-writer", {"filing": [norm(c)[:80] for c, _, _ in filed]})
     if not filed:
         out.undecide(CORE, setup.dqual, "KEY", "the statement that files a spec into its bucket is not recognised")
